@@ -2,6 +2,7 @@ package main
 
 import (
 	"fmt"
+	"strings"
 	"go/token"
 	"sort"
 )
@@ -50,7 +51,16 @@ func (x *Exec) strEq(a, b Value) *Term {
 	}
 	r := mkBool(true)
 	for i := range sa.B {
-		r = tAnd(r, tEq(sa.B[i], sb.B[i]))
+		p, q := sa.B[i], sb.B[i]
+		if p.IsConc() && q.IsConc() && p.C.(int64) >= 1000 && q.C.(int64) >= 1000 && p.C != q.C {
+			// two different tokens of an injective encoder are equal iff their arguments are
+			tp, tq := x.tokens[p.C.(int64)-1000].(*tokenInfo), x.tokens[q.C.(int64)-1000].(*tokenInfo)
+			if tp.kind == tq.kind && (tp.kind == "dec" || tp.kind == "b64" || strings.HasPrefix(tp.kind, "enc:")) {
+				r = tAnd(r, x.eqVal(tp.arg, tq.arg))
+				continue
+			}
+		}
+		r = tAnd(r, tEq(p, q))
 	}
 	return r
 }
